@@ -32,6 +32,6 @@ Proof. vm_compute. split; reflexivity. Qed.
 
 From Coq Require Import String.
 Theorem C07_formula_variables_are_the_request :
-  (random_bindings = equi_bindings) /\ List.length g1d_bindings = 3%nat /\ List.length g2d_bindings = 5%nat.
+  (random_bindings = equi_bindings) /\ List.length g1d_bindings = 5%nat /\ List.length g2d_bindings = 5%nat.
 Proof. rewrite random_bindings_pinned, equi_bindings_pinned, g1d_bindings_pinned, g2d_bindings_pinned. repeat split. Qed.
 Print Assumptions C07_formula_variables_are_the_request.
